@@ -20,7 +20,7 @@ def run(tier, seed):
     if ok:
         evs = vlib.read_ndjson(tf)
         v.sample({"cases": [e for e in evs if e.get("ev") == "cfg.flow"][3:6] + [e for e in evs if e.get("ev") in ("cfg.domain", "cfg.strict", "cfg.formats", "cfg.port")][:8]})
-    v.add_cov(evaluations=sum(stats.get(k, 0) for k in ("flow", "formats", "strict", "domain", "port", "literal", "template")),
+    v.add_cov(evaluations=sum(stats.get(k, 0) for k in ("flow", "formats", "strict", "domain", "port", "literal", "template", "range")),
               distinct_nontrivial=stats.get("flow", 0) // 2 + stats.get("strict", 0) + stats.get("domain", 0) // 3 + stats.get("port", 0) + stats.get("formats", 0),
               rule="flow: for each of the 8 proxy types, definitions over field-presence classes {minimal, full, empty-vs-absent containers, random subsets} with unicode / dotted / long names, boundary ports, mixed-case domains, "
                    "and an empty proxy_type, are completed, validated, marshalled, sent through the real codec and reconstructed by NewProxyConfigurerFromMsg; every server-relevant field (per-type sets of the specification) is compared; "
